@@ -383,6 +383,133 @@ pub fn build_cli() -> Result<(), String> {
     }
 }
 
+/// Structured formulas whose refutation needs search, learning and (for some) restarts, so that the
+/// DRAT output contains real learned lemmas: pigeonhole, complete sign-pattern formulas with and
+/// without one clause, xor chains with auxiliary variables, cardinality contradictions, the
+/// ordering principle, and polarity flips of one pigeonhole instance. At most 20 variables (the
+/// truth is brute-forced).
+pub fn structured_formulas(tier: Tier) -> Vec<Formula> {
+    let mut out = vec![];
+    let php = |p: usize, h: usize| {
+        let var = |i: usize, j: usize| (i * h + j + 1) as i32;
+        let mut clauses: Vec<Clause> = vec![];
+        for i in 0..p {
+            clauses.push((0..h).map(|j| var(i, j)).collect());
+        }
+        for j in 0..h {
+            for a in 0..p {
+                for b in a + 1..p {
+                    clauses.push(vec![-var(a, j), -var(b, j)]);
+                }
+            }
+        }
+        Formula { n: p * h, clauses }
+    };
+    let phps: &[(usize, usize)] = if tier.quick() { &[(3, 2), (4, 3), (3, 3)] } else { &[(2, 1), (3, 2), (4, 3), (5, 4), (3, 3), (4, 4), (4, 5), (6, 3)] };
+    for &(p, h) in phps {
+        out.push(php(p, h));
+    }
+    // polarity flips of PHP(4,3): one variable at a time, and all of them
+    let base = php(4, 3);
+    let flips: Vec<Vec<usize>> = if tier.quick() { vec![vec![1], vec![6], (1..=12).collect()] } else { (1..=12).map(|v| vec![v]).chain([(1..=12).collect::<Vec<_>>(), vec![1, 5, 9], vec![2, 4, 6, 8]]).collect() };
+    for fl in flips {
+        let clauses = base.clauses.iter().map(|c| c.iter().map(|l| if fl.contains(&(l.unsigned_abs() as usize)) { -*l } else { *l }).collect()).collect();
+        out.push(Formula { n: 12, clauses });
+    }
+    // all 2^n sign patterns over n variables (unsatisfiable), and each with one clause removed
+    // (exactly one model)
+    for n in if tier.quick() { 3..=4usize } else { 2..=5usize } {
+        let all: Vec<Clause> = (0..(1u32 << n)).map(|bits| (0..n).map(|i| if bits >> i & 1 == 1 { (i + 1) as i32 } else { -((i + 1) as i32) }).collect()).collect();
+        out.push(Formula { n, clauses: all.clone() });
+        let step = if tier.quick() { 5 } else { 1 };
+        for k in (0..all.len()).step_by(step) {
+            let mut c = all.clone();
+            let _ = c.remove(k);
+            out.push(Formula { n, clauses: c });
+        }
+    }
+    // xor chains: x1 ^ ... ^ xn computed left to right into auxiliary variables and asserted to
+    // be `want`, and computed right to left and asserted to be the opposite (or the same)
+    let xor3 = |a: i32, b: i32, t: i32, clauses: &mut Vec<Clause>| {
+        // t <-> a ^ b
+        clauses.push(vec![-a, -b, -t]);
+        clauses.push(vec![a, b, -t]);
+        clauses.push(vec![a, -b, t]);
+        clauses.push(vec![-a, b, t]);
+    };
+    for n in if tier.quick() { 4..=5usize } else { 3..=7usize } {
+        for same in [false, true] {
+            let mut clauses = vec![];
+            let mut next = n as i32 + 1;
+            let mut acc = 1;
+            for i in 2..=n as i32 {
+                xor3(acc, i, next, &mut clauses);
+                acc = next;
+                next += 1;
+            }
+            let left = acc;
+            let mut acc = n as i32;
+            for i in (1..n as i32).rev() {
+                xor3(acc, i, next, &mut clauses);
+                acc = next;
+                next += 1;
+            }
+            clauses.push(vec![left]);
+            clauses.push(vec![if same { acc } else { -acc }]);
+            out.push(Formula { n: (next - 1) as usize, clauses });
+        }
+    }
+    // cardinality: at least k of n true, and at most k-1 (unsatisfiable) or at most k (satisfiable)
+    fn subsets(n: usize, k: usize) -> Vec<Vec<usize>> {
+        let mut out = vec![];
+        for bits in 0..(1u32 << n) {
+            if bits.count_ones() as usize == k {
+                out.push((0..n).filter(|i| bits >> i & 1 == 1).collect());
+            }
+        }
+        out
+    }
+    for n in if tier.quick() { 4..=5usize } else { 3..=7usize } {
+        for k in 2..n {
+            for slack in [0usize, 1] {
+                let mut clauses: Vec<Clause> = vec![];
+                for sub in subsets(n, n - k + 1) {
+                    clauses.push(sub.iter().map(|i| (*i + 1) as i32).collect());
+                }
+                let most = k - 1 + slack;
+                for sub in subsets(n, most + 1) {
+                    clauses.push(sub.iter().map(|i| -((*i + 1) as i32)).collect());
+                }
+                out.push(Formula { n, clauses });
+            }
+        }
+    }
+    // ordering principle: a total order on n elements without a minimum
+    for n in if tier.quick() { 3..=4usize } else { 3..=4usize } {
+        let var = |i: usize, j: usize| (i * n + j + 1) as i32; // i < j in the order (i != j)
+        let mut clauses: Vec<Clause> = vec![];
+        for i in 0..n {
+            clauses.push(vec![-var(i, i)]);
+            for j in 0..n {
+                if i != j {
+                    clauses.push(vec![var(i, j), var(j, i)]);
+                    clauses.push(vec![-var(i, j), -var(j, i)]);
+                    for k in 0..n {
+                        if k != i && k != j {
+                            clauses.push(vec![-var(i, j), -var(j, k), var(i, k)]);
+                        }
+                    }
+                }
+            }
+            // i is not a minimum: something is smaller
+            clauses.push((0..n).filter(|j| *j != i).map(|j| var(j, i)).collect());
+        }
+        out.push(Formula { n: n * n, clauses });
+    }
+    out.retain(|f| f.n <= 20);
+    out
+}
+
 fn part_a_formulas(tier: Tier) -> Vec<Formula> {
     let mut v = vec![];
     if tier.quick() {
@@ -421,8 +548,9 @@ impl Property for C14 {
     }
     fn rule(&self, tier: Tier) -> String {
         format!(
-            "{} CNF formulas over <=3 variables as ordered literal sequences (empty formula, empty clause, unit, duplicate and tautological clauses included). Part A, in-process on the repository's own parsers/dimacs.rs: for every formula all layouts with <=2 non-default separators out of {{two spaces, tab, newline, CRLF, comment line, trailing-space+comment line}} between any two tokens x 4 prefixes x 5 suffixes (<=1 deviation), and for the layouts with <=1 deviation every 1-cut and every 2-cut chunking of the byte stream (short reads): the parser must deliver exactly the formula; the verdict through the repository's sink equals brute force and the model satisfies every clause. Part B, the real binary on every formula (canonical spelling and two layouts) with --proof-path: s/v lines are checked against brute force and the proof against an own forward RUP checker (every lemma RUP, empty clause present). A case = one formula (part A) or one formula (part B); the counters give the numbers of layouts, chunkings and CLI runs.",
-            part_a_formulas(tier).len()
+            "{} CNF formulas over <=3 variables as ordered literal sequences (empty formula, empty clause, unit, duplicate and tautological clauses included). Part A, in-process on the repository's own parsers/dimacs.rs: for every formula all layouts with <=2 non-default separators out of {{two spaces, tab, newline, CRLF, comment line, trailing-space+comment line}} between any two tokens x 4 prefixes x 5 suffixes (<=1 deviation), and for the layouts with <=1 deviation every 1-cut and every 2-cut chunking of the byte stream (short reads): the parser must deliver exactly the formula; the verdict through the repository's sink equals brute force and the model satisfies every clause. Part B, the real binary on every formula and on {} structured formulas of up to 20 variables whose refutation needs learned lemmas (pigeonhole incl. polarity flips, complete sign-pattern formulas with and without one clause, xor chains with auxiliary variables, cardinality contradictions, ordering principle) (canonical spelling and two layouts) with --proof-path: s/v lines are checked against brute force and the proof against an own forward RUP checker (every lemma RUP, empty clause present). A case = one formula (part A) or one formula (part B); the counters give the numbers of layouts, chunkings and CLI runs.",
+            part_a_formulas(tier).len(),
+            structured_formulas(tier).len()
         )
     }
     fn assumptions(&self) -> Vec<String> {
@@ -531,7 +659,8 @@ impl Property for C14 {
         }
         // ---- part B ----
         let dir = scratch_dir();
-        for (fi, f) in fs.iter().enumerate() {
+        let structured = structured_formulas(tier);
+        for (fi, f) in fs.iter().chain(structured.iter()).enumerate() {
             let my = idx;
             idx += 1;
             let desc = || format!("B: {:?}", f.canonical());
@@ -584,7 +713,10 @@ impl Property for C14 {
                             }
                             let p = std::fs::read_to_string(&proof).unwrap_or_default();
                             match rup_check(f, &p) {
-                                Ok(true) => cx.acc.count("proofs_checked", 1),
+                                Ok(true) => {
+                                    cx.acc.count("proofs_checked", 1);
+                                    cx.acc.count("proof_lemmas_checked", p.lines().filter(|l| !l.trim().is_empty() && !l.trim_start().starts_with('d')).count() as u64);
+                                }
                                 Ok(false) => cx.violation("proof-without-empty-clause", format!("file {text:?}: proof {p:?} does not derive the empty clause")),
                                 Err(e) => cx.violation("proof-not-rup", format!("file {text:?}: proof {p:?}: {e}")),
                             }
